@@ -1,6 +1,7 @@
 (* C20 — Same definition and input always give the same result and the same text. *)
 From GO Require Import Base.Str Base.Sort Model.Tokenizer Model.Option Model.Tree Model.Parse Model.Help Model.Dispatch.
-From GO Require Import Proofs.ParseLemmas Proofs.Match Proofs.HelpLemmas Proofs.Perm Proofs.Unknown.
+From GO Require Import Proofs.ParseLemmas Proofs.Match Proofs.HelpLemmas Proofs.Perm Proofs.PermParse Proofs.PermRev Proofs.Unknown.
+From GO Require Import Run.Check.
 From Coq Require Import Sorting.Permutation Sorting.Sorted.
 
 (* Go's unspecified map iteration order is "any permutation of the association list".  Every place
@@ -70,3 +71,34 @@ Print Assumptions C20_level_options.
 Theorem C20_sorted_lists : forall l l', Permutation l l' -> sort_strs l = sort_strs l'.
 Proof. exact sorted_output_order_independent. Qed.
 Print Assumptions C20_sorted_lists.
+
+(* ---- end to end ---- *)
+
+(* [nsim root root']: the same command tree with the option table and the command table of every
+   node in another order (any other iteration order of every Go map).  The whole parse — warnings
+   written, the error (kind, arguments, exact message) or the final value / Called / CalledAs of
+   every option, the remaining arguments and the selected command path — is the same.  Every mode,
+   unknown-mode, require-order setting, every argv. *)
+Theorem C20_parse_order_independent :
+  forall pf md lower ro specs root root' st0 args,
+    nsim root root' ->
+    observe (parse pf md lower ro specs root st0 args) = observe (parse pf md lower ro specs root' st0 args).
+Proof. exact observe_order_independent. Qed.
+Print Assumptions C20_parse_order_independent.
+
+(* ... and the final states are the same trees up to that reordering (so what Dispatch, Help and
+   completion read from them is covered by the per-function theorems above) *)
+Theorem C20_parse_states_similar :
+  forall pf md lower ro specs root root' st0 args,
+    nsim root root' ->
+    psim (parse pf md lower ro specs root st0 args) (parse pf md lower ro specs root' st0 args).
+Proof. exact parse_order_independent. Qed.
+Print Assumptions C20_parse_states_similar.
+
+(* an instance: every table of the tree reversed (this is the order the correspondence check also
+   evaluates the model on); [wfk]: the keys of every table are distinct, as in a Go map *)
+Theorem C20_reversed_tables :
+  forall fuel n, wfk n -> nsim n (rev_node fuel n).
+Proof. exact nsim_rev_node. Qed.
+Print Assumptions C20_reversed_tables.
+
